@@ -11,6 +11,12 @@ def run(ctx: Ctx) -> None:
     with ctx.only("T7.quat-to-matrix"):  # the transposed matrix of QuaternionRotation is its inverse only if the helper normalises (shared with C08)
         t2_rot.run_quaternion(ctx)
     ctx.floor("T7.quat-to-matrix", 2)
+    # the velocity-field inverses are "the same recurrence with the negated scale": that is an inverse only if expv() honours the sign of
+    # the scale for every number of steps, including the steps=0 shortcut (shared with C11)
+    from ..tables import t11_expv
+    with ctx.only("T11x.expv"):
+        t11_expv.run_expv(ctx)
+    ctx.floor("T11x.expv", 50)
     ctx.floor("T67.generic-inverse", 6)
     ctx.floor("T67.inverse", 200)
     ctx.floor("T67.inverse-velocity", 30)
@@ -46,6 +52,7 @@ def mutants(prog):
         ("svf inverse: buffer registered on the original", "deepali.spatial.nonrigid", "StationaryVelocityFieldTransform.inverse", "inv.register_buffer('u', u, persistent=False)", "self.register_buffer('u', u, persistent=False)", "T67.inverse-velocity"),
         ("svf inverse: forward exponential", "deepali.spatial.nonrigid", "StationaryVelocityFieldTransform.inverse", "u = inv.exp(v)", "u = self.exp(v)", "T67.inverse-velocity"),
         ("svf grid_: exp module rebuilt without its scale", "deepali.spatial.nonrigid", "StationaryVelocityFieldTransform.grid_", "exp = shallow_copy(self.exp)", "exp = ExpFlow(steps=self.exp.steps, align_corners=grid.align_corners())", "T67.inverse-velocity"),
+        ("expv: steps=0 shortcut ignores a negative unit scale", "deepali.core.flow", "expv", "if abs(scale - 1) > 1e-15:", "if abs(abs(scale) - 1) > 1e-15:", "T11x.expv"),
     ]
     for name, mod, fn, old, new, expect in specs:
         ov = source_sub(prog, mod, fn, old, new)
